@@ -17,5 +17,9 @@ def main (args : List String) : IO UInt32 := do
     for f in Model.C17.facts do
       IO.println s!"{if f.2 then "ok  " else "FAIL"} {f.1}"
     return (if Model.C17.facts.all (·.2) then 0 else 1)
+  if args.contains "c16" then
+    for f in Model.C16.facts do
+      IO.println s!"{if f.2 then "ok  " else "FAIL"} {f.1}"
+    return (if Model.C16.facts.all (·.2) then 0 else 1)
   loop B (← IO.getStdin) (← IO.getStdout)
   return 0
